@@ -249,7 +249,14 @@ def clause_d(ctx, P):
                 return False
             return expr_mentions_field(atom, "hostname_resolvers", "Zeroconf") and has_call(atom, "HashMap::get")
         edges = guard_edges(P, fn, pred)
-        ok = must_pass_edges(fn, ab, edges)
+
+        def pred2(atom, outcome, bb):
+            # written out in the handler itself: `if let Some(deadline) = <lookup in hostname_resolvers> { if deadline <= next_time { return } }`
+            return outcome is True and atom[0] == "binop" and atom[1] == "Lt" and expr_mentions_field(atom[3], "hostname_resolvers", "Zeroconf")
+        edges2 = guard_edges(P, fn, pred2)
+        none_edges = guard_edges(P, fn, lambda atom, outcome, bb: atom[0] == "variant" and outcome == frozenset(["None"]) and
+                                 expr_mentions_field(atom[1], "hostname_resolvers", "Zeroconf"))
+        ok = must_pass_edges(fn, ab, edges) or (bool(edges2) and must_pass_edges(fn, ab, edges2 | none_edges))
         ctx.ob("C13d.reschedule-under-deadline", fn.name, ok, fn.loc(ab),
                "rescheduling is control-dependent on a test derived from the resolver's stored deadline" if ok else
                "rescheduling is not guarded by the resolver's deadline")
@@ -261,7 +268,8 @@ def clause_d(ctx, P):
                 r = s["r"]
                 if r["k"] == "binop" and r["op"] == "Lt":
                     lt = True
-        ctx.ob("C13d.deadline-compare", fn.name, lt, fn.loc(ab), "a closure of the handler compares `next_time < deadline` (strict)")
+        lt = lt or bool(edges2)
+        ctx.ob("C13d.deadline-compare", fn.name, lt, fn.loc(ab), "the handler (or a closure of it) compares `next_time < deadline` (strict)")
     # F5 on the deadline lookup and all other accesses of hostname_resolvers
     f5.run_f5(ctx, P, {"hostname_resolvers"}, rule="C13d.F5.key-normalised", floor=7)
     f5.check_single_folding(ctx, P, {"hostname_resolvers", "service_queriers"} & set(f5.MAPS), "C13d.F5.single-folding")
